@@ -538,6 +538,24 @@ def c23_switch_of_masks_eager():
     tr = sw.simulate(key, args)
     return float(tr.get_score())
 
+@probe
+def c25_marginal_algorithm_all_selected():
+    """open: with an algorithm and everything selected, Marginal.random_weighted must return the exact log density (estimate_logpdf does)"""
+    import genjax
+    from genjax import SelectionBuilder as SB
+    from genjax._src.inference.smc import Importance
+    from genjax._src.inference.sp import Target
+    @gen
+    def model():
+        x = flip(0.5) @ "x"
+        return flip(jnp.where(x, 0.9, 0.3)) @ "y"
+    alg = Importance(Target(model, (), C.n()))
+    m = genjax.marginal(selection=SB["x"] | SB["y"], algorithm=alg)(model)
+    w, v = m.random_weighted(key)
+    exact = m.estimate_logpdf(key, v)
+    assert jnp.allclose(w, exact, atol=1e-5), (float(w), float(exact))
+    return float(w)
+
 if __name__ == "__main__":
     names = sys.argv[1:] or list(P)
     bad = 0
